@@ -53,7 +53,7 @@ def run(chk):
 
         from suites import ops_manifests as OM
         _, _, dis = core.differential(chk, "docs_manifests:" + kind, cases, "roundtrip_" + kind,
-                          model_cases=[[c["compose"], OM.resolve_ops(c, False)] for c in cases], impl_fn="impl_roundtrip",
+                          model_cases=[[c["compose"], S.equivalent_ops(c)] for c in cases], impl_fn="impl_roundtrip",
                           nontrivial=lambda c, r: r[0] == "ok" and len(r[2]) >= 1, oracle=oracle,
                           normalise=lambda r: r[:2] if (isinstance(r, list) and len(r) == 3) else r)
         # the reference model files every entry where the add calls say: a written manifest that differs from the model's
